@@ -81,6 +81,19 @@ Theorem C17_linear_hashes_keys_perm : forall idf ord idf' ord' (h : list Z -> Z)
 Proof. exact linear_hashes_keys_perm. Qed.
 Print Assumptions C17_linear_hashes_keys_perm.
 
+(* the fragment dictionary under renumbering / another insertion order: every key keeps its multiplicity (the list of a
+   key that is absent is empty) *)
+Theorem C17_fragment_counts_invariant : forall (s : Z -> Z) g lo hi k,
+  (forall x y, s x = s y -> x = y) -> wf_mol g = true ->
+  length (fget (fragments (rename_mol s g) lo hi) k) = length (fget (fragments g lo hi) k).
+Proof. exact fragment_counts_invariant. Qed.
+Print Assumptions C17_fragment_counts_invariant.
+
+Theorem C17_fragment_counts_reordered : forall g g', wf_mol g = true -> wf_mol g' = true -> reordered g g' ->
+  forall lo hi k, length (fget (fragments g lo hi) k) = length (fget (fragments g' lo hi) k).
+Proof. exact fragment_counts_reordered. Qed.
+Print Assumptions C17_fragment_counts_reordered.
+
 (* ---- linear_hash_set / linear_bit_set ---- *)
 Theorem C17_hash_sets_invariant : forall (h : list Z -> Z) (s : Z -> Z) g lo hi nbp,
   (forall x y, s x = s y -> x = y) -> wf_mol g = true ->
